@@ -1452,7 +1452,7 @@ func Prop() *core.Prop {
 		ID:    "C14",
 		Level: core.Exploration,
 		Race:  true,
-		Rule:  "a case is a multiplexer (stanza namespace client/server/any) with a PRNG-drawn pattern set: for one or two (kind,type) pairs a random subset of the nine names over 2 local names x 2 namespaces (4 exact, 2 local-only, 2 namespace-only, the bare wildcard), for a quarter of those pairs also 1-3 payload patterns carrying the stanza's own element name / local name / content namespace (which an empty stanza must not be matched against; 4% of children carry the stanza's own name), up to 5 patterns with the same names under other kinds/types, up to 3 top-level names; 1-3 incoming elements (stanzas of the focus pairs, of other kinds/types, in the other content namespace, non-stanza top-level elements) with 0-4 children in any order, nested children, white space, names outside the universe. Every handler is tagged with its pattern, reads a fixed number of tokens (0-7 or until EOF and beyond) and may write a marker. Each element goes through ServeMux.HandleXMPP on an element-limited reader (and 1 case in 12 also through a served session); the handlers invoked, the tokens each could read and what reached the encoder are compared with a reference lookup written from the statement. 1 case in 4 also registers a duplicate, a nil handler, a nil handler function or a near-duplicate. distinct = (kind, empty/children, pattern-class mask for the first child, steps chosen, read classes, fallback).",
+		Rule:  "a case is a multiplexer (stanza namespace client/server/any) with a PRNG-drawn pattern set: for one or two (kind,type) pairs a random subset of the nine names over 2 local names x 2 namespaces (4 exact, 2 local-only, 2 namespace-only, the bare wildcard), for a quarter of those pairs also 1-3 payload patterns carrying the stanza's own element name / local name / content namespace (which an empty stanza must not be matched against; 4% of children carry the stanza's own name), up to 5 patterns with the same names under other kinds/types, up to 3 top-level names; 1-3 incoming elements (stanzas of the focus pairs, of other kinds/types, in the other content namespace, non-stanza top-level elements) with 0-4 children in any order, nested children, white space, names outside the universe. Every handler is tagged with its pattern, reads a fixed number of tokens (0-7 or until EOF and beyond) and may write a marker. Each element goes through ServeMux.HandleXMPP on an element-limited reader (and 1 case in 12 also through a served session); the handlers invoked, the tokens each could read and what reached the encoder are compared with a reference lookup written from the statement. Every element is fed twice on fresh multiplexers: from an encoding/xml decoder limited to the element, and from an in-memory token reader that returns its last token together with io.EOF (the form xmlstream.Wrap / stanza.Message.Wrap / MultiReader produce). In 1 case in 5 message/presence focus pairs get a forwarding handler that hands a stanza embedded in a {urn:verif:fwd}forwarded child to the same multiplexer while its own dispatch is in progress (re-entrant dispatch; the embedded stanza is judged by the same reference, and the carrier's later handlers must still see the carrier). 1 case in 8 also dispatches its elements concurrently on one shared multiplexer, one goroutine each, after one ordinary dispatch; the first handler reached for each element waits until the others are inside a handler or done, so the dispatches overlap by construction; invocations are attributed by the id of the stanza value the handler is handed, and the children run under the race detector. 1 case in 4 also registers a duplicate, a nil handler, a nil handler function or a near-duplicate. distinct = (kind, empty/children, pattern-class mask for the first child, steps chosen, read classes, fallback).",
 		Assumptions: []string{
 			"a message without a type attribute is of type normal, a presence without one is available; elements with undefined type values are not generated",
 			"a stanza whose only content is character data is not generated (the statement speaks of child payloads and of empty stanzas only)",
